@@ -30,12 +30,22 @@ FLAVOURS = {
     "sched": ["-fsanitize=thread", "-mllvm", "-tsan-distinguish-volatile=1"],
     "plain": [],
 }
+# "<flavour>rel": the same instrumentation in the library's release configuration (NDEBUG instead of DEBUG: ASSERT compiles to
+# nothing, VERIFY keeps only its side effects), with nstd/Debug.hpp seen before every other header of a harness TU.
+for _f in ("asan", "sched"):
+    FLAVOURS[_f + "rel"] = FLAVOURS[_f]
+def common_flags(flavour, harness_tu=False):
+    if not flavour.endswith("rel"):
+        return list(COMMON)
+    return [f for f in COMMON if f != "-DDEBUG"] + ["-DNDEBUG"] + (["-include", "nstd/Debug.hpp"] if harness_tu else [])
 LINK = {
     "asan": ["-fsanitize=address", UBSAN],
     "fuzz": ["-fsanitize=address", UBSAN, "-fsanitize=fuzzer"],
     "sched": [],
     "plain": [],
 }
+LINK["asanrel"] = LINK["asan"]
+LINK["schedrel"] = LINK["sched"]
 
 
 def log(*a):
@@ -140,7 +150,7 @@ def lib_sources():
 
 def build_lib(flavour, extra_flags=()):
     """Compile all libnstd sources of the current tree with the flavour's instrumentation -> static archive."""
-    flags = COMMON + FLAVOURS[flavour] + list(extra_flags)
+    flags = common_flags(flavour) + FLAVOURS[flavour] + list(extra_flags)
     key = sha("lib", flavour, tree_hash(), " ".join(flags))
     d = os.path.join(BUILD, "lib-%s-%s" % (flavour, key))
     lib = os.path.join(d, "libnstd.a")
@@ -203,7 +213,7 @@ def build_bin(name, sources, flavour, extra_cflags=(), extra_ldflags=(), link_li
     psrcs = [s_ if os.path.isabs(s_) else os.path.join(VERIF, s_) for s_ in plain_sources]
     dep_files = srcs + psrcs + glob.glob(os.path.join(VERIF, "vsched", "*")) + glob.glob(os.path.join(VERIF, "engine", "*")) + glob.glob(os.path.join(VERIF, "harness", "*.hpp")) + [
         d if os.path.isabs(d) else os.path.join(VERIF, d) for d in deps]
-    flags = COMMON + FLAVOURS[flavour] + list(extra_cflags)
+    flags = common_flags(flavour, True) + FLAVOURS[flavour] + list(extra_cflags)
     key = sha("bin", name, flavour, tree_hash(), file_hash(dep_files), " ".join(flags), " ".join(extra_ldflags))
     out = os.path.join(BUILD, "bin-%s-%s" % (name, key))
     if os.path.exists(out):
@@ -553,9 +563,9 @@ WRAPS = ["pthread_create", "pthread_join", "sched_yield", "usleep", "clock_getti
 
 
 def part_binary(prop, part):
-    if part.get("flavour") == "sched":
+    if part.get("flavour") in ("sched", "schedrel"):
         ld = ["-Wl," + ",".join("--wrap=" + w for w in WRAPS + list(part.get("wraps", ())))] + list(part.get("ldflags", ()))
-        return build_bin(part.get("bin", "%s_%s" % (prop, part["name"])), part["sources"], "sched", part.get("cflags", ()), ld, deps=part.get("deps", ()), plain_sources=["vsched/rt.cpp"] + list(part.get("plain_sources", ())))
+        return build_bin(part.get("bin", "%s_%s" % (prop, part["name"])), part["sources"], part["flavour"], part.get("cflags", ()), ld, deps=part.get("deps", ()), plain_sources=["vsched/rt.cpp"] + list(part.get("plain_sources", ())))
     if part["kind"] == "libfuzzer":
         return build_bin(part.get("bin", "%s_%s" % (prop, part["name"])), part["sources"], "fuzz", part.get("cflags", ()), part.get("ldflags", ()), deps=part.get("deps", ()))
     return build_bin(part.get("bin", "%s_%s" % (prop, part["name"])), part["sources"], part.get("flavour", "asan"), part.get("cflags", ()), part.get("ldflags", ()), deps=part.get("deps", ()))
